@@ -401,16 +401,16 @@ def k_api(run, case):
 
 
 # ------------------------------------------------------------------ L3 helpers (shared with C02/C12)
-def make_file_pair(rng, fmt, workdir, n=None, pos_cls=None):
+def make_file_pair(rng, fmt, workdir, n=None, pos_cls=None, still_start=False, stamp_cls=None, small_est=False):
     """write a reference/estimate file pair; returns dict with paths and ground-truth arrays"""
     n = n or int(rng.integers(6, 70))
     ref = gen.traj_arrays(rng, n, pos_cls=pos_cls or ["walk", "utm", "circle", "stationary_mix", "tiny"][rng.integers(5)],
                           rot_cls=["smooth", "uniform", "mixed", "yaw_grid"][rng.integers(4)],
-                          stamp_cls=["epoch", "small", "irregular"][rng.integers(3)])
+                          stamp_cls=stamp_cls or ["epoch", "small", "irregular"][rng.integers(3)])
     for k in range(1, n):
         if ref["t"][k] <= ref["t"][k - 1]:
             ref["t"][k] = ref["t"][k - 1] + 1e-3
-    if fmt == "tum" and rng.random() < .07:
+    if fmt == "tum" and not stamp_cls and rng.random() < .07:
         # stamps in integer nanoseconds since the epoch (the files carry no time unit: all time
         # options of the command are in the unit of the files)
         ref["t"] = np.round((ref["t"] - ref["t"][0]) * 1e9) + 1.4e18
@@ -450,11 +450,20 @@ def make_file_pair(rng, fmt, workdir, n=None, pos_cls=None):
         c = ref["p"].mean(axis=0)
         p = (A[:3, :3] @ (ref["p"][idx] - c).T).T + c + A[:3, 3]
         R = np.array([A[:3, :3] @ ref["R"][i] for i in idx])
-    elif rng.random() < .7:
+    elif rng.random() < .7 or small_est:
         A = gen.rand_se3(rng, tscale=ext)
         s = 10.0**rng.uniform(-0.5, 0.5)
+        if small_est:
+            s = 10.0**rng.uniform(0.5, 1.2)  # an estimate at a much smaller metric scale (monocular)
         p = (A[:3, :3] @ p.T).T / s + A[:3, 3]
         R = np.array([A[:3, :3] @ Rk for Rk in R])
+    if still_start:
+        # the platform stands still (or drives straight along one axis) for its first poses
+        m = min(6, len(p))
+        if rng.random() < .5:
+            p[:m] = p[0]
+        else:
+            p[:m] = p[0] + np.outer(np.arange(m), [[1.0, 0, 0], [0, 1.0, 0], [0, 0, 1.0]][rng.integers(3)]) * ext * 0.01
     offset = 0.0
     if fmt != "kitti" and rng.random() < .5:
         offset = float("%.9f" % float(rng.normal() * 5.0))  # (no exponent notation: argparse)
@@ -590,6 +599,8 @@ def draw_common_options(rng, fp, force=()):
         argv.append("--correct_scale" if rng.random() < .5 else "-s")
     if (o["align"] or o["correct_scale"]) and (rng.random() < .4 or "n_to_align" in force):
         o["n_to_align"] = int(rng.integers(3, max(4, fp["n_est"] + 2)))
+        if "n_small" in force:
+            o["n_to_align"] = int(rng.integers(3, 6))
         argv += ["--n_to_align", str(o["n_to_align"])]
     if rng.random() < .25:
         o["downsample"] = int(rng.integers(2, max(fp["n_ref"], fp["n_est"]) + 3))
@@ -893,7 +904,8 @@ def ape_cli(run, case, rng, work):
         fp = real_file_pair(rng, work)
         fmt = fp["fmt"]
     else:
-        fp = make_file_pair(rng, fmt, work)
+        fp = make_file_pair(rng, fmt, work, still_start=bool(case.get("still_start")),
+                            stamp_cls="small" if "tmax_boundary" in case.get("force_options", ()) else None)
     argv_o, o = draw_common_options(rng, fp, force=case.get("force_options", ()))
     rel_cli = list(CLI_REL)[rng.integers(len(CLI_REL))]
     relation = CLI_REL[rel_cli]
@@ -902,6 +914,8 @@ def ape_cli(run, case, rng, work):
             "-r" if rng.random() < .5 else "--pose_relation", rel_cli] + argv_o
     if rng.random() < .3:
         unit = ["mm", "cm", "m", "km", "deg", "rad"][rng.integers(6)]
+        if UNIT_OF[relation] in ("deg", "rad") and rng.random() < .5:
+            unit = UNIT_OF[relation]  # a conversion to the unit the values already have
         argv += ["--change_unit", unit]
     argv += ["--save_results", "out.zip", "--no_warnings"]
     argv = group_short_flags(rng, argv, o, force=case.get("group"))
